@@ -495,7 +495,7 @@ class Tensor:
         #
         # If provided, set leaf rank with a non-zero default
         #
-        if default != 0:
+        if default != 0 or type(default) is not int:
             self.ranks[-1].setDefault(default)
 
 
